@@ -40,7 +40,7 @@ def run_cfg(draw):
     scripted = draw(st.integers(0, 2)) > 0
     kinds = ["halton", "rseq", "uniform", "pso", "best"] + ([] if scripted else ["xgb"])
     cfg = {"space": sp, "lineup": draw(gen.lineup_spec(kinds=kinds, min_len=1, max_len=4, max_bs=3)),
-           "model": draw(st.sampled_from(["gauss", "ar1", "poly"])), "D": draw(st.integers(1, 2)), "N": draw(st.integers(4, 9)),
+           "model": draw(st.sampled_from(["gauss", "ar1", "poly", "tiny"])), "D": draw(st.integers(1, 2)), "N": draw(st.integers(4, 9)),
            "E": draw(st.integers(1, 3)), "seed": draw(st.integers(0, 2**32 - 2)),
            "verbose": draw(st.booleans()), "n_jobs": 1}
     if scripted:
@@ -56,10 +56,21 @@ def run_cfg(draw):
 @st.composite
 def cases(draw):
     cfgs = draw(st.lists(run_cfg(), min_size=1, max_size=3))
+    if draw(st.booleans()):
+        # a sibling run: same shapes (ensemble, lengths, dimensions, model), different seed / line-up - the case where a
+        # stale series file in a reused folder is hardest to tell from the run's own
+        sib = dict(draw(run_cfg()), **{k: cfgs[0][k] for k in ("space", "model", "D", "N", "E")})
+        if sib["loss"].get("filters"):
+            sib["loss"] = dict(sib["loss"], filters=["demean"] * sib["D"])
+        cfgs.append(sib)
     op = st.one_of(st.tuples(st.just("calibrate"), st.integers(1, 3)), st.tuples(st.just("calibrate"), st.integers(1, 3)),
                    st.tuples(st.just("checkpoint"), st.integers(0, 2)), st.tuples(st.just("restore")),
                    st.tuples(st.just("new_run"), st.integers(0, len(cfgs) - 1), st.integers(0, 2)))
     ops = [["new_run", 0, 0]] + [list(o) for o in draw(st.lists(op, min_size=1, max_size=8))]
+    if draw(st.integers(0, 2)) == 0 and len(cfgs) >= 2:
+        # make sure folder reuse by another run (after the first one wrote something) is well represented
+        ops = [["new_run", 0, 0], ["calibrate", draw(st.integers(1, 2))], ["new_run", len(cfgs) - 1, 0],
+               ["calibrate", draw(st.integers(1, 3))]] + ops[1:4]
     return {"cfgs": cfgs, "ops": ops}
 
 
